@@ -348,10 +348,15 @@ def _fill_in_default_arguments(func: Callable, call: ast.Call) -> Tuple[ast.Call
                 if a is not None:
                     arg_array.append(a)  # type: ignore
                 elif param.default is not param.empty:
+                    if param.name == "known_types" and func.__module__ == ObjectStream.__module__:
+                        # Select/SelectMany/Where's last argument is for the library's own
+                        # use - it is never part of the query.
+                        break
                     a = as_literal(param.default)
                     arg_array.append(a)
                 else:
                     raise ValueError(f"Argument {param.name} is required")
+            i_arg += 1
 
     # If we are making a change to the call, put in a reference back to the
     # original call.
@@ -407,6 +412,7 @@ def fixup_ast_from_modifications(transformed_ast: ast.AST, original_ast: ast.Cal
             for a in node.args[n_old_args:]:
                 orig_ast.args.append(a)
             orig_ast.func = node.func
+            orig_ast.keywords = node.keywords
 
     fixer = arg_fixer(original_ast)
     fixer.visit(transformed_ast)
